@@ -470,7 +470,10 @@ def check(prop: str, tier: str, only: str = "") -> int:
             "violations": len(violations),
         }
         os.makedirs(EVID, exist_ok=True)
-        with open(os.path.join(EVID, f"{prop}.json" if not only else f"_partial_{prop}.json"), "w") as fh:
+        # evidence/<id>.json is only (re)written by a full run against /repo itself; --only runs and runs
+        # against a scratch copy (TOLA_SRC, used for seeded changes) go to an ignored _partial_ file
+        foreign = os.path.realpath(os.environ.get("TOLA_SRC", "/repo/src")) != os.path.realpath("/repo/src")
+        with open(os.path.join(EVID, f"{prop}.json" if not (only or foreign) else f"_partial_{prop}.json"), "w") as fh:
             json.dump(ev, fh, indent=1, default=str)
         log(
             f"{prop} [{tier}] obligations={n_obl} discharged={n_dis} inconclusive={n_inc} "
